@@ -129,17 +129,19 @@ def campaign(c):
     for i in range(20 if c.quick else 300):
         r = c.rng.fork('ord%d' % i)
         data = r.bytes(8 + r.below(20))
-        ks = [r.below(4) for _ in range(2 + r.below(4))]
-        reads = ', '.join('b.read(%d)' % k for k in ks)
+        ks = [r.below(4) if r.chance(4, 5) else None for _ in range(2 + r.below(5))]      # None: read_all() in the middle of the history
+        reads = ', '.join('b.read(%d)' % k if k is not None else 'b.read_all()' for k in ks)
         src = ('import io;\nimport eth;\nimport text;\nlet b = io::bufio("|%s|");\n'
                'let x = text::concat(%s, "|ff|", b.read_all());\neth::frame("|000000000001|", "|000000000002|", x);\n' % (data.hex(), reads)).encode()
         impl, model = progdiff.run_both(c, src)
         progdiff.compare(c, src, impl, model, 'order')
         if impl['outcome'][0] == 'success':
             f = [x[1] for x in progdiff.pcap_records(impl['file'])]
-            want = data[:sum(ks)] if sum(ks) <= len(data) else data
-            n = min(sum(ks), len(data))
-            want = data[:n] + b'\xff' + data[n:]
+            pos, want = 0, b''
+            for k in ks:           # a cursor that only moves forward: each read hands out the next bytes, read_all the rest
+                take = len(data) - pos if k is None else min(k, len(data) - pos)
+                want += data[pos:pos + take]; pos += take
+            want = want + b'\xff' + data[pos:]
             if len(f) != 1 or f[0][14:] != want:
                 c.violation('sem:arg-order', 'arguments were not evaluated left to right exactly once', dict(src=src.decode()))
         c.case(('ord', i), dict(kind='order', src=src.decode()[:300]))
